@@ -318,7 +318,7 @@ type caseOut struct {
 	K       int    `json:"k"` // 0 = the quiet point
 	Impl    string `json:"impl"`
 	Ref     string `json:"ref"`
-	Class   string `json:"class,omitempty"`
+	Shapes  []string `json:"shapes,omitempty"`
 	LatUS   int64  `json:"lat_us"`
 	NumGOK  bool   `json:"numg_ok"`
 	NumG    int    `json:"numg"`
@@ -346,23 +346,22 @@ type limits struct {
 	CrashMsg string `json:"crash_msg"`
 }
 
-func classOf(p Prog, c calib, k int) string {
-	if k > 0 && c.entryAtPause(k) < c.NEntry-1 {
-		return "cancel-in-nonlast-entry"
-	}
-	if k == 0 && c.entryAtPause(len(c.Events)+1) < c.NEntry-1 {
-		return "cancel-in-nonlast-entry"
+// shapesOf: the shapes of the repaired findings a case has (distribution buckets; no longer classes)
+func shapesOf(p Prog, c calib, k int) []string {
+	var out []string
+	if (k > 0 && c.entryAtPause(k) < c.NEntry-1) || (k == 0 && c.entryAtPause(len(c.Events)+1) < c.NEntry-1) {
+		out = append(out, "cancel-in-nonlast-entry")
 	}
 	if hasPlainChanOp(p) {
-		return "plain-eval-chanop"
+		out = append(out, "plain-eval-chanop")
 	}
 	if hasEarlierChanOp(p) {
-		return "earlier-eval-closure-chanop"
+		out = append(out, "earlier-eval-funcvalue-chanop")
 	}
 	if reexecGolit(p) {
-		return "golit-reexecuted"
+		out = append(out, "golit-reexecuted")
 	}
-	return ""
+	return out
 }
 
 func sameBefore(a, b []event, n int) bool {
@@ -431,15 +430,6 @@ func runProgram(p Prog, lim limits, emit func(caseOut)) (out progOut) {
 		}
 	case "truncated":
 		kmax = c.N - 2
-		// An operation that is still pending when the calibration is cut is executed after the calibration's own
-		// cancellation, so its kind (a blocking operation?) is not observed. This matters only for operations that
-		// would stay blocked after a cancellation (functions compiled by a plain Eval).
-		for g, s := range cal.AtPause {
-			if s == "hook" && g != c.Events[c.N-1].G && (hasPlainChanOp(p) || hasEarlierChanOp(p)) {
-				out.Err = "calibration: cut while a goroutine of a plain-Eval function is pending (outside the family)"
-				return
-			}
-		}
 	}
 	if kmax > lim.KCap {
 		kmax = lim.KCap
@@ -460,7 +450,7 @@ func runProgram(p Prog, lim limits, emit func(caseOut)) (out progOut) {
 			continue
 		}
 		if lim.CrashMsg != "" && k == lim.CrashK {
-			co := caseOut{K: k, Impl: lim.CrashMsg, Ref: c.refOutcome(k), Class: classOf(p, c, k), EntryAt: c.entryAtPause(k)}
+			co := caseOut{K: k, Impl: lim.CrashMsg, Ref: c.refOutcome(k), Shapes: shapesOf(p, c, k), EntryAt: c.entryAtPause(k)}
 			out.Cases = append(out.Cases, co)
 			emit(co)
 			continue
@@ -468,7 +458,7 @@ func runProgram(p Prog, lim limits, emit func(caseOut)) (out progOut) {
 		if bad >= 3 {
 			// the call does not return after a cancellation (three points in a row): every further point would
 			// wait for the time-out as well
-			co := caseOut{K: k, Impl: "noreturn", Ref: c.refOutcome(k), Class: classOf(p, c, k), EntryAt: c.entryAtPause(k)}
+			co := caseOut{K: k, Impl: "noreturn", Ref: c.refOutcome(k), Shapes: shapesOf(p, c, k), EntryAt: c.entryAtPause(k)}
 			out.Cases = append(out.Cases, co)
 			emit(co)
 			continue
@@ -478,7 +468,7 @@ func runProgram(p Prog, lim limits, emit func(caseOut)) (out progOut) {
 			cfg.Quiet = true
 		}
 		res := runOnce(rd, cfg)
-		co := caseOut{K: k, Impl: implOutcome(res), Ref: c.refOutcome(k), Class: classOf(p, c, k), LatUS: res.Latency.Microseconds(), EntryAt: c.entryAtPause(k)}
+		co := caseOut{K: k, Impl: implOutcome(res), Ref: c.refOutcome(k), Shapes: shapesOf(p, c, k), LatUS: res.Latency.Microseconds(), EntryAt: c.entryAtPause(k)}
 		if res.Err == "" && !sameBefore(res.Events, c.Events, res.NPre) {
 			co.Impl = "error:the_run_before_the_cancellation_differs_from_the_calibration_run"
 		}
@@ -658,7 +648,7 @@ func main() {
 	}
 	_ = worker
 	run := common.NewRun("C09")
-	run.Res.Rule = "cases = (program, cancellation point k): every program of a fixed family (busy loops, nested calls, methods, recursion, closures, host callbacks, goroutines blocked on recv/recv2/send/range/select, goroutine trees, run lists with global initialisers and init functions, functions compiled by a plain Eval) plus seeded random programs, and for each every k = 1..min(N, cap) counted in interpreted operations under the newest-first lock-step policy, plus the quiet point when everything is blocked; non-trivial = at least one operation ran before the cancellation and at least one goroutine had an operation in flight or was blocked; distinct = distinct (operation tree, k)"
+	run.Res.Rule = "cases = (program, cancellation point k): every program of a fixed family (busy loops, nested calls, methods, recursion, closures, host callbacks, goroutines blocked on recv/recv2/send/range/select, goroutine trees, run lists with global initialisers and init functions, functions compiled by a plain Eval, function values — closures in variables, struct fields and maps, method values — stored by an earlier evaluation, `go func(){}()` re-executed in loops, receives that are operands of return statements) plus seeded random programs, and for each every k = 1..min(N, cap) counted in interpreted operations under the newest-first lock-step policy, plus the quiet point when everything is blocked; non-trivial = at least one operation ran before the cancellation and at least one goroutine had an operation in flight or was blocked; distinct = distinct (operation tree, k)"
 	defer run.Finish()
 	drv, err := common.StartDriver("C09")
 	if err != nil {
@@ -678,7 +668,13 @@ func main() {
 	}
 	workers := 6
 
-	ask := func(line string, k int, budget int) (y, g string) {
+	// the Lean side of one case: y (machine, extracted facts), y2 (the same with the one undecidable race taken the
+	// other way), g (the specification), dom (Props.C09.Dom at the cancellation), racy (is that race possible)
+	type leanAns struct {
+		y, y2, g   string
+		dom, racy bool
+	}
+	ask := func(line string, k int, budget int) (a leanAns) {
 		ks := fmt.Sprint(k)
 		if k == 0 {
 			ks = "quiet"
@@ -686,13 +682,22 @@ func main() {
 		ans, err := drv.Ask(fmt.Sprintf("C09 run %d %s %s", budget, ks, line))
 		if err != nil {
 			run.Errorf("driver: %v", err)
-			return "", ""
+			return
 		}
 		f := common.Fields(ans)
-		if f["y"] == "" || f["g"] == "" {
+		if f["y"] == "" || f["g"] == "" || f["y2"] == "" || f["dom"] == "" {
 			run.Errorf("driver answered %q for k=%s %s", ans, ks, line)
 		}
-		return f["y"], f["g"]
+		return leanAns{f["y"], f["y2"], f["g"], f["dom"] == "1", f["racy"] == "1"}
+	}
+	// does the real outcome agree with the model? (y2 only where the race exists)
+	agrees := func(impl string, a leanAns) bool { return impl == a.y || (a.racy && impl == a.y2) }
+	// the class label of a case: F09-3 = the negation of the theorem's domain, computed by the Lean side from the input
+	classOf := func(a leanAns) string {
+		if !a.dom {
+			return "funcvalue-in-flight"
+		}
+		return ""
 	}
 
 	var jobs []job
@@ -732,24 +737,38 @@ func main() {
 			still, detail := false, po.Err
 			if po.Err == "" && len(po.Cases) == 1 {
 				c := po.Cases[0]
+				a := ask(po.Line, c.K, lim.Budget)
 				still = c.Impl != c.Ref
 				detail = fmt.Sprintf("k=%d impl=%s ref=%s", c.K, c.Impl, c.Ref)
+				// a repaired finding whose replay lies in the class of another, listed, finding: it has not come back
+				// if what differs is exactly what the model of that class predicts
+				if still && f.Status == "fixed" && classOf(a) != "" && agrees(c.Impl, a) {
+					for _, o := range findings {
+						if o.Status == "finding" && o.ID != f.ID {
+							still = false
+							detail += " (differs only by " + classOf(a) + ", as the model predicts)"
+							break
+						}
+					}
+				}
 			} else if po.Err == "" {
 				detail = "the replay produced no case"
+			} else if f.Status == "fixed" {
+				still = true
 			}
 			run.Res.Known = append(run.Res.Known, common.KnownReplay{ID: f.ID, Status: f.Status, What: f.What, StillFails: still, Detail: detail})
 		}
 		for _, p := range fixedFamily() {
 			jobs = append(jobs, job{p, lim})
 		}
-		for _, p := range findingFamily() {
+		for _, p := range repairedFamily() {
 			jobs = append(jobs, job{p, lim})
 		}
 		for i := 0; i < nRandom; i++ {
 			jobs = append(jobs, job{randomProg(run.Rng, fmt.Sprintf("random-%d", i), genCfg{}), lim})
 		}
 		for i := 0; i < nRandomF; i++ {
-			jobs = append(jobs, job{randomProg(run.Rng, fmt.Sprintf("random-f-%d", i), genCfg{inits: i%2 == 0, plain: i%2 == 1 || i%4 == 0}), lim})
+			jobs = append(jobs, job{randomProg(run.Rng, fmt.Sprintf("random-f-%d", i), genCfg{inits: i%2 == 0, plain: i%2 == 1 || i%4 == 0, earlier: i%3 != 2}), lim})
 		}
 	}
 
@@ -770,18 +789,35 @@ func main() {
 		run.Hit("program-end:" + po.End)
 		run.Hit(fmt.Sprintf("program-entries:%d", po.NEntry))
 		for _, c := range po.Cases {
-			y, g := ask(po.Line, c.K, lim.Budget)
-			if y == "" {
+			a := ask(po.Line, c.K, lim.Budget)
+			if a.y == "" {
 				continue
 			}
+			y, g := a.y, a.g
+			class := classOf(a)
 			input := replayT{Prog: po.Prog, K: c.K}
 			key := fmt.Sprintf("%s|%d", po.Line, c.K)
 			nontrivial := !strings.HasPrefix(c.Ref, "n0;") && (strings.Contains(c.Ref, "i1") || strings.Contains(po.Line, "(b "))
 			run.Count(key, nontrivial)
-			if c.Class != "" {
-				run.Hit("class:" + c.Class)
+			if class != "" {
+				run.Hit("class:" + class)
 			} else {
 				run.Hit("class:in-domain")
+			}
+			for _, sh := range c.Shapes {
+				run.Hit("shape:" + sh)
+			}
+			if a.racy {
+				// the goroutine of Execute has a go statement of a function value in flight: whether the new goroutine
+				// makes its frame before or after Execute returns is decided by the Go scheduler, not by the step hook
+				switch {
+				case a.y == a.y2:
+					run.Hit("race:same-outcome-either-way")
+				case c.Impl == a.y:
+					run.Hit("race:execute-returned-first")
+				case c.Impl == a.y2:
+					run.Hit("race:new-goroutine-first")
+				}
 			}
 			if c.K == 0 {
 				run.Hit("point:quiet")
@@ -803,16 +839,16 @@ func main() {
 				maxLat = c.LatUS
 			}
 			run.Sample(map[string]interface{}{"program": po.Prog.Name, "k": c.K, "tree": po.Line, "impl": c.Impl, "model": y, "spec": g, "ref": c.Ref}, 8)
-			if c.Impl != y {
+			if !agrees(c.Impl, a) {
 				run.Disagree(common.Disagreement{Kind: "impl-vs-model", Input: input, Impl: c.Impl, Model: y, Ref: c.Ref, Note: po.Line})
 			}
 			if c.Ref != g {
 				run.Disagree(common.Disagreement{Kind: "spec-vs-ref", Input: input, Spec: g, Ref: c.Ref, Note: po.Line})
 			}
 			if c.Impl != c.Ref {
-				d := common.Disagreement{Kind: "impl-vs-ref", Input: input, Impl: c.Impl, Model: y, Ref: c.Ref, Finding: c.Class}
-				if c.Impl != y {
-					d.Finding, d.Note = "", "differs from the reference and from the model of the unchanged code (class "+c.Class+")"
+				d := common.Disagreement{Kind: "impl-vs-ref", Input: input, Impl: c.Impl, Model: y, Ref: c.Ref, Finding: class}
+				if !agrees(c.Impl, a) {
+					d.Finding, d.Note = "", "differs from the reference and from the model of the unchanged code (class "+class+")"
 				}
 				run.Disagree(d)
 			}
